@@ -2,7 +2,8 @@
 From Coq Require Import NArith Bool List Lia.
 From RS.Gen Require Import Prelude GenConsts.
 From RS.Model Require Import Field Tables Sched Codec Spec.
-From RS.Proofs Require Import FieldFacts Ring FftSpec Lagrange Cauchy.
+From RS.Model Require Import Layout Machine.
+From RS.Proofs Require Import FieldFacts Ring FftSpec Lagrange Cauchy MachineOps MachineEnc.
 Import ListNotations.
 Local Open Scope N_scope.
 
@@ -73,6 +74,23 @@ Theorem C02_low_shards : forall lanes e K R (w : list (list N)), 1 <= K -> 1 <= 
   recovery_low_spec K R (map (fun s => nth l s 0) (firstn (N.to_nat K) w)) (N.of_nat j).
 Proof. exact encode_low_cauchy_shards. Qed.
 Print Assumptions C02_low_shards.
+
+(* ... and through the streaming API of the machine: for any codec, engine, valid configuration and
+   shard size, any recycled working space and stale memory, after enc_make and adding the originals,
+   16-bit slot l of recovery shard j (bytes as returned) is row j of the closed-form matrix of
+   the codec's rate applied to slot l of the originals *)
+Theorem C02_api : forall junk, (forall a b c, junk a b c < 65536) ->
+  forall c ee K R sb ep originals, validateb c K R sb = None ->
+  N.of_nat (length originals) = K -> Forall (byteshard sb) originals ->
+  forall w0 x0 x a0, enc_make c ee K R sb w0 = inl (x0, a0) -> enc_add_all x0 originals = inl x ->
+  forall j l, j < R -> (l < N.to_nat (lanes_of sb))%nat ->
+  nth l (syms_of_bytes (nth (N.to_nat j) (encode_shards junk ep x) [])) 0 =
+  match rate_of c K R with
+  | High => recovery_high_spec K R (slot originals l) j
+  | Low => recovery_low_spec K R (slot originals l) j
+  end.
+Proof. intros. eapply ops_encode_cauchy; eassumption. Qed.
+Print Assumptions C02_api.
 
 (* the interpolation theorem behind them *)
 Theorem C02_lagrange : forall k, (k <= 15)%nat -> forall c u x, length c = Nat.pow 2 k ->
